@@ -46,3 +46,21 @@ Theorem C01_aggregate_shape : forall agg m n,
     (if String.eqb (V.Model.SmallFns.upper agg) "COUNT_DISTINCT" then "COUNT(DISTINCT " ++ V.Model.SmallFns.cte_ref m (n ++ "_raw") ++ ")"
      else V.Model.SmallFns.upper agg ++ "(" ++ V.Model.SmallFns.cte_ref m (n ++ "_raw") ++ ")")%string.
 Proof. exact V.Proofs.Small_proofs.agg_sql_shape. Qed.
+
+Require V.Model.CteShape V.Gen.CteShape_gen V.Proofs.CteShape_proofs.
+(* THE MODEL CTE, regenerated (Gen/CteShape_gen.v: what _build_model_cte projects on 476 scripted worlds x queries; described in Props/C20.v).  The hand-written
+   Model/CteShape.cte_shape builds the same items, FROM and WHERE on every row.  What C01 uses of it: the raw column of count / count( * ) is the literal 1, of a
+   count_distinct without SQL the key (CONCAT of the casts for a composite key), of anything else the measure's own expression -- guarded by the measure's filters --
+   which is what Model/Single.v aggregates; and each requested dimension is projected exactly once (C20_requested_dimension_projected, C20_projected_once). *)
+Theorem C01_cte_table : forallb (V.Model.CteShape.cte_row_ok V.Gen.CteShape_gen.cte_world) V.Gen.CteShape_gen.cte_rows = true.
+Proof. exact V.Proofs.CteShape_proofs.cte_table_holds. Qed.
+Theorem C01_raw_column_of_a_measure : forall m x,
+  V.Model.CteShape.measure_base m x =
+    (if V.Base.PyLib.opt_eqb (V.Model.CteShape.cm_agg x) "count" && (negb (V.Base.PyLib.opt_truthy (V.Model.CteShape.cm_sql x)) || V.Base.PyLib.opt_eqb (V.Model.CteShape.cm_sql x) "*") then "1"
+     else if V.Base.PyLib.opt_eqb (V.Model.CteShape.cm_agg x) "count_distinct" && negb (V.Base.PyLib.opt_truthy (V.Model.CteShape.cm_sql x)) then
+       match V.Model.CteShape.mo_pk m with
+       | [k] => k
+       | ks => "CONCAT(" ++ String.concat ", '|', " (map (fun c => "CAST(" ++ c ++ " AS VARCHAR)") ks) ++ ")"
+       end
+     else V.Model.CteShape.replace_placeholder m (V.Model.CteShape.cm_sql_expr x))%string.
+Proof. reflexivity. Qed.
